@@ -339,6 +339,12 @@ def main(argv):
     try:
         if a.prop == "setup":
             return setup()
+        if a.prop == "selftest":
+            vlib.RUN = os.path.join(WORK, "run-selftest-%d" % os.getpid())
+            os.makedirs(vlib.RUN, exist_ok=True)
+            rc = selftest()
+            shutil.rmtree(vlib.RUN, ignore_errors=True)
+            return rc
         vlib.RUN = os.path.join(WORK, "run-%s-%s-%d" % (a.prop, a.tier, os.getpid()))
         os.makedirs(vlib.RUN, exist_ok=True)
         if a.replay:
@@ -370,6 +376,86 @@ def setup():
         run_mc(m)
     print("setup ok")
     return 0
+
+
+def selftest():
+    """Demonstrates that the binding bites (not part of any verdict): corrupted recordings must be
+    rejected by TLC, corrupted expectations must be reported by the replay harness."""
+    import gzip, copy
+    b = build_harness("debug")
+    ok = True
+    # (a) impl -> spec: one recorded history, then four corruptions of it
+    base = run_traces(b, [{"mix": "mixed", "seed": 4242, "events": 300, "segment": 300, "max_slots": 8}], "selftest-base")
+    assert base["traces"][0]["accepted"], "the unmodified trace must be accepted"
+    src = base["traces"][0]["file"]
+    events = [json.loads(l) for l in open(src)]
+
+    def variant(name, mutate):
+        ev = copy.deepcopy(events)
+        mutate(ev)
+        d = os.path.join(vlib.RUN, "traces-selftest-" + name)
+        os.makedirs(d, exist_ok=True)
+        f = os.path.join(d, "t.ndjson")
+        open(f, "w").write("\n".join(json.dumps(e) for e in ev) + "\n")
+        meta = os.path.join(d, "meta")
+        rc, out = sh(tlc_cmd("Trace.tla", os.path.join(SPEC, "Trace.cfg"), 1, meta), cwd=SPEC, env={"TRACE": f, "JAVA_TOOL_OPTIONS": "-Xmx2g -Xss512m"}, timeout=600)
+        rejected = "TRACE-MISMATCH" in out or "TRACE-SOFT" in out
+        print("selftest trace/%-28s %s" % (name, "rejected (good)" if rejected else "ACCEPTED (BAD)"))
+        return rejected
+
+    def first(pred):
+        return next(i for i, e in enumerate(events) if pred(e))
+    i_move = first(lambda e: e["op"] in ("append", "prepend", "insert_after", "insert_before") and e.get("res") == "Ok" and e["count"] >= 3)
+    i_fail = first(lambda e: e.get("res") in ("Self", "Removed", "Ancestor"))
+    i_new = first(lambda e: e["op"] == "new" and e["count"] >= 2)
+    i_rm = first(lambda e: e["op"] == "remove")
+
+    def corrupt_link(ev):
+        l = ev[i_move]["links"]
+        x = ev[i_move]["live"][0] - 1          # a live slot
+        l[x][2] = 0 if l[x][2] else (2 if x != 1 else 1)
+    ok &= variant("one link changed", corrupt_link)
+    ok &= variant("failing result -> Ok", lambda ev: ev[i_fail].__setitem__("res", "Ok"))
+    ok &= variant("new id token reused", lambda ev: ev[i_new].__setitem__("newtok", 1))
+    ok &= variant("freed slot not reusable", lambda ev: ev[i_rm].__setitem__("drain", []))
+    ok &= variant("payload of a node changed", lambda ev: ev[i_move]["val"].__setitem__(0, 9999) if ev[i_move]["val"][0] else ev[i_move]["val"].__setitem__(1, 9999))
+
+    def swap(ev):
+        ev[i_move], ev[i_move + 1] = ev[i_move + 1], ev[i_move]
+    if events[i_move + 1]["op"] != events[i_move]["op"] or events[i_move + 1]["links"] != events[i_move]["links"]:
+        ok &= variant("two events swapped", swap)
+    # (b) spec -> impl: corrupt the expectation inside a bundle
+    path, meta = ensure_bundles("Gen_s4g1")
+    with gzip.open(path, "rt") as f:
+        for line in f:
+            bd = json.loads(line)
+            if bd["st"]["count"] == 3 and len(bd["st"]["live"]) == 3 and any(x != [0, 0, 0, 0, 0] for x in bd["st"]["links"]):
+                break
+    for name, mut in [("post-state link", lambda o: o["post"]["links"][0].__setitem__(0, 3 if o["post"]["links"][0][0] != 3 else 2)),
+                      ("allowed result classes", lambda o: o.__setitem__("res", ["Ancestor"] if o["res"] == ["Ok"] else ["Ok"])),
+                      ("reusable slots", lambda o: o["post"].__setitem__("avail", o["post"]["avail"] + [1]))]:
+        bd2 = copy.deepcopy(bd)
+        o = next(x for x in bd2["out"] if x["c"]["op"] == "append" and x["res"] == ["Ok"])
+        mut(o)
+        one = os.path.join(vlib.RUN, "one-%s.ndjson.gz" % name.replace(" ", "_"))
+        with gzip.open(one, "wt") as f:
+            f.write(json.dumps(bd2) + "\n")
+        r = run_replay(b, one, ["--no-observers", "--no-lookups"], "selftest-" + name.replace(" ", "_"))
+        bad = sum(r["violations"].values()) > 0
+        print("selftest bundle/%-27s %s" % (name, "reported (good)" if bad else "NOT REPORTED (BAD)"))
+        ok &= bad
+    bd2 = copy.deepcopy(bd)
+    live0 = bd2["st"]["live"][0]
+    bd2["obs"][live0 - 1]["desc"] = list(reversed(bd2["obs"][live0 - 1]["desc"])) + [live0]
+    one = os.path.join(vlib.RUN, "one-obs.ndjson.gz")
+    with gzip.open(one, "wt") as f:
+        f.write(json.dumps(bd2) + "\n")
+    r = run_replay(b, one, ["--no-outcomes"], "selftest-obs")
+    bad = r["violations"].get("C09", 0) > 0
+    print("selftest bundle/%-27s %s" % ("expected descendants", "reported (good)" if bad else "NOT REPORTED (BAD)"))
+    ok &= bad
+    print("selftest", "ok" if ok else "FAILED")
+    return 0 if ok else 2
 
 
 def replay_file(prop, path):
